@@ -100,8 +100,76 @@ def timeoutOf (c : String) : Option Nat :=
   | 't' :: 'o' :: r => (natOfChars r 0).map (· * 1000)
   | _ => none
 
+/-- anonymous pushes (`P:<w>`, whole-server runs: which request a connection thread queues is not
+    visible from outside) get their ordinal as value. -/
+def numberPushes : List String → Nat → List String
+  | [], _ => []
+  | l :: ls, k =>
+    if l.startsWith "P:" then ("P" ++ toString k ++ (l.drop 1).toString) :: numberPushes ls (k + 1)
+    else l :: numberPushes ls k
+
+/-- extend a one-to-one map ordinal ↦ request id, or fail. -/
+def bind (m : List (Nat × Nat)) (o v : Nat) : Option (List (Nat × Nat)) :=
+  match m.find? (fun p => p.1 == o), m.find? (fun p => p.2 == v) with
+  | some p, _ => if p.2 == v then some m else none
+  | none, some _ => none
+  | none, none => some ((o, v) :: m)
+
+/-- the model's records against the implementation's, values matched through the map. -/
+def matchRecs : List HRec → List HRec → List (Nat × Nat) → Option (List (Nat × Nat))
+  | [], [], m => some m
+  | a :: as, b :: bs, m =>
+    if a.call == b.call && a.start == b.start && a.fin == b.fin then
+      match toNat? a.res, toNat? b.res with
+      | some o, some v => (match bind m o v with
+          | some m' => matchRecs as bs m'
+          | none => none)
+      | none, none => if a.res == b.res then matchRecs as bs m else none
+      | _, _ => none
+    else none
+  | _, _, _ => none
+
+def matchHists : List (List HRec) → List (List HRec) → List (Nat × Nat) → Option (List (Nat × Nat))
+  | [], [], m => some m
+  | a :: as, b :: bs, m =>
+    (match matchRecs a b m with
+     | some m' => matchHists as bs m'
+     | none => none)
+  | _, _, _ => none
+
+def matchLeft : List Item → List String → List (Nat × Nat) → Bool
+  | [], [], _ => true
+  | .token :: is, "tok" :: ls, m => matchLeft is ls m
+  | .elem o :: is, l :: ls, m =>
+    (match toNat? l with
+     | some v => (match bind m o v with
+        | some m' => matchLeft is ls m'
+        | none => false)
+     | none => false)
+  | _, _, _ => false
+
+/-- the times (ns) at which the implementation executed an `unblock`, read off the label stream. -/
+def unblockTimes : List Label → Nat → List Nat
+  | [], _ => []
+  | .tick d :: ls, now => unblockTimes ls (now + d)
+  | .unblock _ :: ls, now => now :: unblockTimes ls now
+  | _ :: ls, now => unblockTimes ls now
+
+/-- C17, "each call to unblock makes one receive call return without a request", in time: in a
+    zero-latency run, when `k` unblocks are issued at instant `t`, either `k` receive calls return
+    empty-handed at that very instant, or no receiver that had entered its call before `t` is still
+    inside it afterwards (a receiver released at `t` by a request that arrived at the same instant
+    does not count: the unblock then stays queued for the next call). -/
+def unblockPrompt (recs : List HRec) (times : List Nat) : Bool :=
+  times.eraseDups.all (fun t =>
+    let k := (times.filter (· == t)).length
+    let stillBlocked := (recs.filter (fun r => decide (r.start < t) && (match r.fin with | some f => decide (t < f) | none => true))).length
+    let released := (recs.filter (fun r => r.res == "none" && r.fin == some t)).length
+    decide (k ≤ released) || stillBlocked == 0)
+
 def run (kv : KV) : String :=
-  let labelStrs := listS ',' (get kv "labels")
+  let anon := get kv "anon" == "1"
+  let labelStrs := if anon then numberPushes (listS ',' (get kv "labels")) 0 else listS ',' (get kv "labels")
   let labels := labelStrs.filterMap labelOf
   let parsedAll := labels.length == labelStrs.length
   let (s, rej) := runIdx {} labels 0
@@ -119,8 +187,9 @@ def run (kv : KV) : String :=
   let blocked := (listS ',' (get kv "blocked")).filterMap toNat?
   -- model vs implementation
   let mh := (List.range hist.length).map (modelHist s)
-  let aHist := accepted && mh == hist
-  let aLeft := accepted && (!leftKnown || s.queue.map itemStr == left)
+  let bij := if anon then matchHists mh hist [] else none
+  let aHist := accepted && (if anon then bij.isSome else mh == hist)
+  let aLeft := accepted && (!leftKnown || (if anon then matchLeft s.queue left (bij.getD []) else s.queue.map itemStr == left))
   let aBlocked := accepted && (blocked == (List.range hist.length).filter (fun t => isWaiting (phaseOf s t)))
   -- C07 oracle: exactly once, per-producer order per receiver, no lost wake-up
   let allTaken := (hist.map valuesOf).flatten
@@ -150,7 +219,8 @@ def run (kv : KV) : String :=
     | some T, some f => r.res != "none" || decide (f - r.start < 2 * T)
     | _, _ => true)
   let tryOk := !zeroLatency || allRecs.all (fun r => r.call != "try" || r.fin == some r.start)
-  let c17 := tokensOk && upperOk && tryOk && exactlyOnce && quiet
+  let promptOk := !zeroLatency || unblockPrompt allRecs (unblockTimes labels 0)
+  let c17 := tokensOk && upperOk && tryOk && promptOk && exactlyOnce && quiet
   let tags := [
     "ptimer:" ++ get kv "ptimer",
     "unblock:" ++ b01 (decide (0 < nUnblock)),
@@ -160,6 +230,7 @@ def run (kv : KV) : String :=
     "blocked:" ++ b01 (!blocked.isEmpty),
     "left:" ++ b01 (!leftVals.isEmpty),
     "recv:" ++ toString hist.length, "prod:" ++ toString prods.length ]
+    ++ (if anon then ["srv:1", "burst:" ++ get kv "burst"] else [])
   let diff := if !parsedAll then "unparsed-label"
     else match rej with
       | some i => "label-rejected:" ++ toString i ++ ":" ++ labelStrs.getD i "?"
